@@ -219,11 +219,25 @@ func c18Panics(f func()) (p bool) {
 	return false
 }
 
+// c18Text: the text of a name as its holder may read it — through Name(), through String(), or by printing the
+// name (fmt uses String()); the three must be one text, otherwise the differing one is appended (and no
+// expectation matches)
+func c18Text(n *namepool.Name) string {
+	a := n.Name()
+	if b := n.String(); b != a {
+		return a + "|String()=" + b
+	}
+	if c := fmt.Sprintf("%v", n); c != a {
+		return a + "|printed=" + c
+	}
+	return a
+}
+
 func c18Obs(n *namepool.Name, format string) string {
 	if n == nil {
 		return "nil"
 	}
-	name := n.Name()
+	name := c18Text(n)
 	var id uint64
 	idPanics := c18Panics(func() { id = n.ID() })
 	switch {
@@ -275,7 +289,7 @@ func c18RunScript(format string, ops []c18ScriptOp) string {
 				id := m.ID()
 				if id == 0 {
 					tok = "a!zero"
-				} else if m.Name() != fmt.Sprintf(format, id) {
+				} else if c18Text(m) != fmt.Sprintf(format, id) {
 					tok = "a!text"
 				} else {
 					for _, o := range vars {
@@ -415,7 +429,7 @@ type c18Recorder struct {
 }
 
 func (r *c18Recorder) acq(n *namepool.Name) uint64 {
-	id, text := n.ID(), n.Name() // read by the owner, after Acquire returned
+	id, text := n.ID(), c18Text(n) // read by the owner, after Acquire returned
 	r.mu.Lock()
 	h := r.nextH
 	r.nextH++
@@ -452,7 +466,7 @@ func c18Record(format string, g, nops, gcBudget int, churn bool, rng *rand.Rand)
 		} else {
 			it.n.Release()
 		}
-		rec.log(fmt.Sprintf("c:%d:%s", it.h, c18ToHex([]byte(it.n.Name()))))
+		rec.log(fmt.Sprintf("c:%d:%s", it.h, c18ToHex([]byte(c18Text(it.n)))))
 	}
 	for w := 0; w < g; w++ {
 		wg.Add(1)
